@@ -587,11 +587,82 @@ pub fn run(tier: Tier) -> i32 {
         }
         cur = next;
     }
-    let evals = counters.evals.load(Relaxed) + spell_n + total + ctx_n;
+    // totality under character classes: expression templates with one or two holes x every ASCII
+    // character and a representative of each Unicode class the tokenizer's `char` predicates can
+    // tell apart (white space of several byte lengths, non-ASCII digits and letters, combining,
+    // zero-width, 3- and 4-byte characters). API level and through the whole shell. No panic; a
+    // hole filled with an ASCII blank must not change the value.
+    const TEMPLATES: [&str; 16] = ["X", "1X", "X1", "1X+X2", "1 X+ X2", "aX=X1", "(X1X)", "1X?X2X:X3", "1X<<X2", "aX++", "++Xa", "0xX1", "1XX2", "X-X1", "aX", "1 +XX 2"];
+    let mut hole_chars: Vec<char> = (0u8..128).map(|b| b as char).collect();
+    hole_chars.extend(crate::props::c06::UNICODE_REPS.chars());
+    hole_chars.extend(['\u{2003}', '\u{1680}', '\u{202f}', '\u{205f}']);
+    let second: Vec<char> = if tier == Tier::Thorough { hole_chars.clone() } else { vec![' ', '\u{a0}', '\u{3000}', '1', 'a', '+', '\u{301}', 'é'] };
+    let class_n = AtomicU64::new(0);
+    TEMPLATES.par_iter().for_each(|t| {
+        let holes = t.matches('X').count();
+        for c1 in &hole_chars {
+            let seconds: Vec<char> = if holes >= 2 { second.clone() } else { vec![*c1] };
+            for c2 in seconds {
+                // first hole c1, the other holes c2
+                let mut first = true;
+                let e: String = t
+                    .chars()
+                    .map(|ch| {
+                        if ch == 'X' {
+                            let r = if first { *c1 } else { c2 };
+                            first = false;
+                            r
+                        } else {
+                            ch
+                        }
+                    })
+                    .collect();
+                let mut env: HashMap<String, String> = HashMap::new();
+                env.insert("a".into(), "7".into());
+                class_n.fetch_add(1, Relaxed);
+                let r = catch(|| eval(&e, &mut env));
+                match r {
+                    Err(p) => {
+                        ctx.violation("c03:panic", &format!("panic on {e:?}: {p}"), json!({"expression": e}));
+                    }
+                    Ok(got) => {
+                        // ASCII blanks are insignificant between tokens
+                        if matches!(*c1, ' ' | '\t' | '\n') && matches!(c2, ' ' | '\t' | '\n') && !t.contains("XX") && *t != "0xX1" {
+                            let plain: String = t.chars().filter(|ch| *ch != 'X').collect();
+                            let mut env2: HashMap<String, String> = HashMap::new();
+                            env2.insert("a".into(), "7".into());
+                            let want = eval(&plain, &mut env2);
+                            let same = match (&got, &want) {
+                                (Ok(a), Ok(b)) => a == b,
+                                (Err(_), Err(_)) => true,
+                                _ => false,
+                            };
+                            // `a ++` / `++ a` / `a =1`: blanks may separate an operator from its operand, but
+                            // `1< <2` style splits of one operator do not occur in these templates
+                            if !same {
+                                ctx.violation("c03:blank-changes-value", &format!("{e:?} gave {got:?} but {plain:?} gives {want:?}"), json!({"expression": e}));
+                            }
+                        }
+                    }
+                }
+                if e.contains("))") || e.contains('\0') || (e.contains(')') && !e.contains('(')) || e.contains('\'') || e.contains('"') || e.contains('`') || e.contains('\\') || e.contains('$') || e.contains('#') {
+                    continue; // would change how the shell delimits the expansion
+                }
+                let script = format!("args $(({e}))");
+                let r = vsh::run_once(&Setup::script(&script), &Default::default());
+                class_n.fetch_add(1, Relaxed);
+                if let Some(p) = r.panic {
+                    ctx.violation("c03:panic", &format!("shell panic on {script:?}: {p}"), json!({"script": script}));
+                }
+            }
+        }
+    });
+    let class_n = class_n.load(Relaxed);
+    let evals = counters.evals.load(Relaxed) + spell_n + total + ctx_n + class_n;
     let cov = json!({
         "evaluations": evals,
         "distinct_nontrivial": counters.errors.load(Relaxed) + (d1.len() as u64),
-        "rule": "expression trees of depth <= 2 (thorough: a pruned depth 3) over all 18 binary value operators, 11 assignment forms, 4 prefix operators, ++/-- prefix and postfix, ?: on boundary operands {0,1,2,3,5,61..65,2^31,2^32+1,2^62,2^63-1,2^63,-1,-(2^63-1), variables a,b (5 environments), unset u}, every tree printed with minimal parentheses and fully parenthesised; exact i128 evaluation with C semantics (value must be exact, overflow / division by zero / MIN%-1 / bad shift counts / shifting a negative or into the sign bit must be errors; short-circuit operands must leave no trace); all pairs of binary operators in both association shapes; $((x)) vs $(($x)) for decimal/octal/hex/signed spellings; 8 assignment forms x 10 shell contexts (top level, function on a global / own local / caller's local, subshell, loop, nested in an assignment, read-only); every string of length <= 4 over 26 token characters must not panic (length <= 2/3 also through the whole shell). Non-trivial counted = depth-1 trees + evaluations whose exact result is an error.",
+        "rule": "expression trees of depth <= 2 (thorough: a pruned depth 3) over all 18 binary value operators, 11 assignment forms, 4 prefix operators, ++/-- prefix and postfix, ?: on boundary operands {0,1,2,3,5,61..65,2^31,2^32+1,2^62,2^63-1,2^63,-1,-(2^63-1), variables a,b (5 environments), unset u}, every tree printed with minimal parentheses and fully parenthesised; exact i128 evaluation with C semantics (value must be exact, overflow / division by zero / MIN%-1 / bad shift counts / shifting a negative or into the sign bit must be errors; short-circuit operands must leave no trace); all pairs of binary operators in both association shapes; $((x)) vs $(($x)) for decimal/octal/hex/signed spellings; 8 assignment forms x 10 shell contexts (top level, function on a global / own local / caller's local, subshell, loop, nested in an assignment, read-only); every string of length <= 4 over 26 token characters must not panic (length <= 2/3 also through the whole shell); 16 expression templates with one or two holes x all 128 ASCII characters and representatives of every Unicode class (white space of 2 and 3 bytes, non-ASCII digits and letters, combining, zero-width, 4-byte) at API level and through the shell: no panic, and ASCII blanks between tokens do not change the value. Non-trivial counted = depth-1 trees + evaluations whose exact result is an error.",
         "samples": samples.take(),
         "expression_evaluations": counters.evals.load(Relaxed),
         "skipped_unspecified_sequence_point_or_negative_right_shift": counters.unspec.load(Relaxed),
